@@ -123,9 +123,11 @@ class Events:
             aw = g.awaited(n)
             s = aw.get("s", "")
             fe = g.resolve(n.frame, t["args"][0], (n.bb, -1))
-            if s.startswith("futures_util::io::Read<"):
+            sel = s.startswith("futures_util::future::Select<") and not g.coroutine_of(aw)
+            # select(stop, transport future): the transport future is polled by the select; the other side only cancels
+            if s.startswith("futures_util::io::Read<") or (sel and "futures_util::io::Read<" in s):
                 return ('READ', 'await', self._future_call(fe, "futures_util::AsyncReadExt::read"))
-            if s.startswith("futures_util::io::WriteAll<"):
+            if s.startswith("futures_util::io::WriteAll<") or (sel and "futures_util::io::WriteAll<" in s):
                 c = self._future_call(fe, "futures_util::AsyncWriteExt::write_all")
                 data = c[2][1] if c is not None and len(c[2]) > 1 else None
                 recv = c[2][0] if c is not None else None
